@@ -160,12 +160,12 @@ def _env():
 
 # ---------------------------------------------------------------------------------- questions
 def qdesc(kind, choices=(), multi=False, default=None, defB=True, maxAtt=0, interactive=True, validator=None, pat=None,
-          built=None):
+          built=None, defInt=False):
     """JSON-able description of a question (python strings).  choices = the caller's list when the question is asked,
     built = the same list when the question object was constructed (the caller changed it in place in between)"""
     return {
         "kind": kind, "choices": list(choices), "built": list(choices if built is None else built),
-        "multi": bool(multi), "hasDef": default is not None,
+        "multi": bool(multi), "hasDef": default is not None, "defInt": bool(defInt),
         "def": default or "", "defB": bool(defB), "maxAtt": int(maxAtt), "interactive": bool(interactive),
         "validator": (kind == "choice") if validator is None else bool(validator), "pat": pat or NOPAT,
     }
@@ -177,6 +177,7 @@ def q_event(qd):
     return {
         "kind": qd["kind"], "choices": [list(c) for c in qd["choices"]],
         "built": [list(c) for c in qd.get("built", qd["choices"])], "multi": qd["multi"], "hasDef": qd["hasDef"],
+        "defInt": bool(qd.get("defInt", False)),
         "def": list(qd["def"]), "defB": qd["defB"], "maxAtt": qd["maxAtt"], "interactive": qd["interactive"],
         "validator": qd["validator"],
         "pat": {"ci": p["ci"], "alts": [list(a) for a in p["alts"]], "whole": p["whole"], "anch": p.get("anch", True)},
@@ -198,6 +199,8 @@ def build(qd, kw=False):
     E = _env()
     k = qd["kind"]
     default = qd["def"] if qd["hasDef"] else None
+    if default is not None and qd.get("defInt"):
+        default = int(default)  # ChoiceQuestion(q, heroes, 1): the index as an int
     callers_list = None
     if k == "choice":
         callers_list = list(qd.get("built", qd["choices"]))
@@ -259,6 +262,8 @@ def proj(v):
         r["t"] = "none"
     elif isinstance(v, bool):
         r["t"], r["b"] = "bool", v
+    elif isinstance(v, int):
+        r["t"], r["s"] = "int", list(str(v))
     elif isinstance(v, str):
         r["t"], r["s"] = "str", list(v)
     elif isinstance(v, (list, tuple)) and all(isinstance(x, str) for x in v):
@@ -515,7 +520,8 @@ def case_of(rec, pools):
         rc = rec["f"]["rc"] if rec["rounds"] == 2 else 0
         multi0 = (not rec["m"]) if rc == 2 else rec["m"]  # the behaviour reports the configuration of its last dialogue
         qd = qdesc(k, [pools["choices"][j - 1] for j in rec["c"]], multi0, dpool[rec["d"] - 1] if rec["d"] else None,
-                   maxAtt=rec["a"], interactive=rec["i"], validator=rec["v"], built=rec["b"] if k == "choice" else None)
+                   maxAtt=rec["a"], interactive=rec["i"], validator=rec["v"], built=rec["b"] if k == "choice" else None,
+                   defInt=rec.get("di", False))
         lines = [pools["answers"][j - 1].replace("~", "\r") for j in rec["s"]]
         if rc == 2:
             return {"objects": [qd], "sessions": [{"lines": lines, "asks": [0, {"obj": 0, "reconf": {"multi": rec["m"]}}],
@@ -686,7 +692,8 @@ def rand_question(rng):
                 default = " " + default + " "
         else:
             default = str(rng.randrange(0, n))
-    qd = qdesc("choice", choices, multi, default, maxAtt=att, interactive=inter)
+    qd = qdesc("choice", choices, multi, default, maxAtt=att, interactive=inter,
+               defInt=(not multi and default is not None and default.isdigit() and rng.random() < 0.35))
     if rng.random() < 0.25:
         qd["errmsg"] = True
     return qd
@@ -737,7 +744,8 @@ def rand_reconf(rng, qd):
     rc = {}
     if qd["kind"] == "choice":
         x = rng.random()
-        if x < 0.4 and not (qd["multi"] and "," in qd["def"]):  # a comma default belongs to multi-select
+        # a comma default belongs to multi-select; an int default to single-select (multi-select splits its default text)
+        if x < 0.4 and not (qd["multi"] and "," in qd["def"]) and not qd.get("defInt"):
             rc["multi"] = not qd["multi"]
         elif x < 0.7:
             cs = list(qd["choices"])
